@@ -70,6 +70,74 @@ def to_iter(I, v):
     raise Unmodelled("into_iter of " + type(v).__name__ + (" " + str(getattr(v, "name", ""))))
 
 
+PAR_LAZY = ("map", "filter", "filter_map", "flat_map", "flatten", "flat_map_iter", "enumerate", "copied", "cloned", "zip", "chain", "rev",
+            "take", "skip", "map_while", "take_while", "inspect", "with_min_len", "with_max_len", "by_ref", "into_iter", "into_par_iter",
+            "par_iter", "par_iter_mut", "peekable", "fuse", "next", "next_back", "size_hint", "len")
+_CLOSURE_ADAPTORS = ("map", "filter", "filter_map", "flat_map")
+
+
+def is_par(it):
+    seen = 0
+    while isinstance(it, Iter) and seen < 50:
+        seen += 1
+        if it.d.get("par"): return True
+        nxt = it.d.get("inner")
+        if nxt is None and it.kind in ("zip", "chain"): nxt = it.d.get("a")
+        it = nxt
+    return False
+
+
+def par_materialise(I, it):
+    """A rayon pipeline: the closure-bearing adaptors (map / filter / filter_map / flat_map) form one task per item of the indexed
+    source below them.  The tasks are executed one after another in an order chosen by the solver (every permutation for <= 3
+    tasks; identity, reverse and one rotation beyond), their results are assembled in index order (rayon's contract for indexed
+    collect / partition / unzip / for_each ordering of results).  Anything order-dependent inside the tasks (a shared Mutex<Vec>,
+    a counter) therefore shows up as paths with different results."""
+    chain = []
+    cur = it
+    while isinstance(cur, Iter) and cur.kind in _CLOSURE_ADAPTORS + ("copied",) and "inner" in cur.d:
+        chain.append(cur); cur = cur.d["inner"]
+    # keep only up to the innermost closure adaptor as task body; below it everything is an index-stable source
+    while chain and chain[-1].kind == "copied":
+        cur = chain.pop()
+    if not chain:
+        return it
+    unordered = False
+    probe = cur
+    while isinstance(probe, Iter):
+        if probe.d.get("unordered"): unordered = True
+        probe = probe.d.get("inner") or (probe.d.get("a") if probe.kind in ("zip", "chain") else None)
+    items = drain(I, cur)
+    k = len(items)
+    if k <= 1: perm = list(range(k))
+    elif k == 2: perm = [[0, 1], [1, 0]][I.E.choose(2, "par_order")]
+    elif k == 3:
+        import itertools
+        perm = list(list(itertools.permutations(range(3)))[I.E.choose(6, "par_order")])
+    else:
+        perm = [list(range(k)), list(range(k - 1, -1, -1)), list(range(1, k)) + [0]][I.E.choose(3, "par_order")]
+    outs = {}
+    for idx in perm:
+        vals = [items[idx]]
+        for ad in reversed(chain):
+            nxt = []
+            for x in vals:
+                if ad.kind == "map": nxt.append(I.call_value(ad.d["f"], [x]))
+                elif ad.kind == "copied": nxt.append(clone_val(deref(x)))
+                elif ad.kind == "filter":
+                    if I.E.branch(I.call_value(ad.d["f"], [Ref(Cell(x))]), "filter"): nxt.append(x)
+                elif ad.kind == "filter_map":
+                    r = I.call_value(ad.d["f"], [x])
+                    if r.variant == "Some": nxt.append(r.cells[0].v)
+                elif ad.kind == "flat_map":
+                    sub = to_iter(I, I.call_value(ad.d["f"], [x])) if ad.d.get("f") is not None else to_iter(I, x)
+                    nxt.extend(drain(I, sub))
+            vals = nxt
+        outs[idx] = vals
+    order = perm if unordered else range(k)          # par_bridge: results arrive in completion order
+    return Iter("list", xs=[v for idx in order for v in outs[idx]], i=0)
+
+
 def into_iter(I, a, fr, d):
     return to_iter(I, a[0])
 
@@ -316,7 +384,21 @@ def method(name, c):
         if name in ("take", "skip"):
             n = a[1].v if a[1].concrete else I.E.concretize(a[1], label=name)
             return Iter(name, inner=it, n=n)
-        if name in ("by_ref", "into_iter", "fuse", "into_par_iter", "par_iter"): return a[0] if byref else it
+        if name in ("into_par_iter", "par_iter", "par_iter_mut", "par_bridge"):
+            it.d["par"] = True
+            if name == "par_bridge": it.d["unordered"] = True
+            return it
+        if name in ("by_ref", "into_iter", "fuse"): return a[0] if byref else it
+        if getattr(I, "par_orders", False) and name not in PAR_LAZY and is_par(it):
+            it = par_materialise(I, it)          # tasks executed in a solver-chosen order, results in index order
+        if name in ("find_any", "position_any", "find_first", "position_first"):
+            xs, hits = drain(I, it), []
+            for idx, x in enumerate(xs):
+                arg = Ref(Cell(x)) if name.startswith("find") else x
+                if I.E.branch(I.call_value(a[1], [arg]), name): hits.append((idx, x))
+            if not hits: return st.none(I)
+            idx, x = hits[I.E.choose(len(hits), "find_any")] if name.endswith("_any") else hits[0]
+            return st.some(I, x if name.startswith("find") else Int("usize", idx))
         if name == "peekable": return Iter("peekable", inner=it, peek=None)
         if name == "peek":
             if it.d["peek"] is None:
